@@ -162,12 +162,17 @@ def fillLoop : Nat → IterSt → List (Option Item) → (Except String (List (O
     | (.panic, it) => (.error "scripted", it)
 
 /-- `Arc::<HeaderSlice<H,[T]>>::from_header_and_iter(header, items)` with `items.len()` already
-answered `n`: allocate for `n`, write the header, run the loop, check exhaustion.  On a panic the
-half-built block is leaked (never dropped) and the iterator is dropped by unwinding. -/
+answered `n`: allocate for `n`, write the header, run the loop, check exhaustion.  On a panic after
+the allocation the half-built block is leaked (never dropped, the header moved into it included) and
+the iterator is dropped by unwinding.  When the layout computation for `n` overflows, nothing is
+allocated and unwinding drops the iterator and then the header, both still owned by the frame. -/
 def fromHeaderAndIterCore (m : Mem) (hdrLay : Layout) (hdr : Option Item) (recLen : Option Nat)
     (ty : Ty) (n : Nat) (it : IterSt) : CtorRes :=
   match allocLayoutHeaderSlice bits hdrLay trackedLay n with
-  | none => .panicked (m.emit it.dropRest) "layout-overflow"
+  | none =>
+      -- the `unwrap()` on the layout computation panics before anything is allocated: unwinding drops the
+      -- iterator (its unyielded items) and then the header, both still owned by the constructor's frame
+      .panicked (m.emit (it.dropRest ++ (hdr.toList.map fun h => Event.drop h.id))) "layout-overflow"
   | some lay =>
     let (m, b) := allocBlock m lay hdr recLen (List.replicate n none)
     match fillLoop n it [] with
